@@ -1,6 +1,29 @@
-import Sucds.Props.C04
-/-! # C12 — PrefixSummedEliasFano is lossless (partial): the structure is the Elias-Fano sequence of the
-    prefix sums; what is proved is the builder invariant of C04/C16 for that sequence. -/
+import Sucds.Proofs.Psef
+/-! # C12 — PrefixSummedEliasFano is lossless and reports the exact sum
+
+For every build configuration and every non-empty list of values whose sum is below `usize::MAX`
+(`vals.sum + 1 < 2^64`): `from_slice` succeeds without panicking — the running sum does not overflow, the
+Elias-Fano builder accepts every prefix sum (they are non-decreasing, below `sum + 1`, exactly `n` of them) — and
+the result returns `access(i) = vals[i]` for `i < n` and `None` for every other `i` (differences of consecutive
+prefix sums, through `EliasFano::delta`), iterates the input in order with exact size hints and then `None`
+forever, and reports `len = n` and `sum` = the arithmetic sum. An empty slice is rejected with `Err`. -/
 namespace Sucds.C12
-theorem prefix_sums_accepted : type_of% (@Sucds.EFB.run_spec) := @Sucds.EFB.run_spec
+open Sucds
+
+def Statement : Prop :=
+  (∀ c : Cfg, PS.fromSlice c [] = .ok none) ∧
+  (∀ (c : Cfg) (vals : List Nat), vals ≠ [] → vals.sum + 1 < 2^64 →
+    ∃ p, PS.fromSlice c vals = .ok (some p) ∧ p.len = vals.length ∧ p.sum c = .ok vals.sum ∧
+      (∀ i, p.access c i = .ok vals[i]?) ∧
+      (∀ n, IndexIter.runN p.len (PS.accOf c p) ⟨0⟩ n =
+        (List.range n).map (fun j => (vals[j]?, (vals.length - j, some (vals.length - j))))))
+
+theorem holds : Statement := by
+  refine ⟨PS.fromSlice_nil, ?_⟩
+  intro c vals hne hs
+  obtain ⟨p, hp, hl, hsum, ha⟩ := PS.fromSlice_ok c vals hne hs
+  obtain ⟨p', hp', _, _, hit⟩ := PS.iter_ok c vals hne hs
+  have : p' = p := by rw [hp] at hp'; cases hp'; rfl
+  subst this
+  exact ⟨p', hp, hl, hsum, ha, hit⟩
 end Sucds.C12
